@@ -10,9 +10,15 @@ Driver for C11.  One request per line, `k=v` fields separated by spaces:
   op=diff  A=<val> B=<val>
   op=cmp   A=<val> B=<val> [ITZ=<minutes>]  answers lt,le,eq,gt,ge as 5 bits; ITZ = implicit timezone of
                                            the dynamic context; extra flag inN=1 iff inside the trigger of F11n
+  op=tmk H= MI= S= US= TZ=                 xs:time constructor (time values are 2000:1:1:US:TZ)
+  op=tadd|tsub A=<time> DUR=<µs>            time ± dayTimeDuration (flag inO: trigger of F11o)
+  op=tdiff A=<time> B=<time>   op=tcmp A= B= [ITZ=]   op=tadjust A=<time> TZ=
+  op=gmk K=<gYear|gYearMonth|gMonth|gMonthDay|gDay> V= Y= MO= D= TZ=
   op=adjust A=<val> TZ=<minutes|n>          adjust-dateTime-to-timezone
   op=adjustdate A=<val> TZ=<minutes|n>      adjust-date-to-timezone
   op=comp  A=<val> V=<10|11>               year;month;day;hours;minutes;seconds(µs);timezone
+  op=durop K=<ymadd|ymsub|dtadd|dtsub|ymmul|ymdiv|dtmul|dtdiv> X=<months|µs> Y=<other duration> N= D=   number = N/D
+  op=lexdt K=<dateTime|date|time> V= S=<code points>   fromstring on the text + str() of the result
   op=lex   V=<10|11> Y=<lexical year>       internal year and its string/year-from form back
   op=pyord N=<ordinal>                      CPython date.fromordinal / toordinal (trusted component)
   op=durcmp M1= S1= M2= S2=                 duration comparison (lt,le,gt,ge bits; µs)
@@ -22,7 +28,8 @@ Answer: `model=<..> spec=<..> inK=<0|1>`; errors `ERR:ValueError|OverflowError|T
 `inK=1` iff the input lies outside the domain of the corresponding theorem (trigger of F11d).
 -/
 import EPV.Proto
-import EPV.Lemmas.CalendarOps
+import EPV.Lemmas.CalendarTime
+import EPV.Model.CalendarLex
 open EPV.Proto EPV.Cal
 open EPV.Timeline (Val)
 
@@ -50,6 +57,7 @@ def showErr : Err → String
   | .value => "ERR:ValueError"
   | .overflow => "ERR:OverflowError"
   | .type => "ERR:TypeError"
+  | .zerodiv => "ERR:ZeroDivisionError"
 
 def showR {α} (f : α → String) : Except Err α → String
   | .ok a => f a
@@ -132,19 +140,73 @@ def answer (line : String) : String :=
       let inK := !(inRange a && inRange b) && !(tdOk sa.instantC && tdOk sb.instantC && tdOk (sa.instantC - sb.instantC))
       out (showR toString (diff a b)) (toString (EPV.Timeline.diff sa sb)) inK
     | _, _ => "bad-args"
-  | "cmp" =>
+  | "cmp" | "tcmp" =>
     match getA, getB, parseTz (f "ITZ") with
     | some a, some b, itz? =>
-      -- ITZ = implicit timezone of the dynamic context (absent / n: none, the library's UTC default)
-      let itz : Int := match itz? with | some (some z) => z | _ => 0
-      let ia := (absV a).instantI itz; let ib := (absV b).instantI itz
+      -- ITZ = implicit timezone of the dynamic context (absent / n: none)
+      let itzo : Option Int := match itz? with | some z => z | none => none
+      let itz : Int := itzo.getD 0
+      let isT := f "op" == "tcmp"
+      let ia := if isT then (absT a).key itz else (absV a).instantI itz
+      let ib := if isT then (absT b).key itz else (absV b).instantI itz
       let ops := [Cmp.lt, Cmp.le, Cmp.eq, Cmp.gt, Cmp.ge]
-      let m := bits (ops.map fun o => compare o a b)
+      let m := bits (ops.map fun o => compareCtx itzo o a b)
+      let m0 := bits (ops.map fun o => compare o a b)     -- `_compare` without the implicit timezone
       let s := bits (ops.map fun o => o.op ia ib)
-      let inK := decide (a.year ≠ b.year ∧ (a.year - b.year).natAbs ≤ 2) && !(tdOk (absV a).instantC && tdOk (absV b).instantC)
+      let fa := fillTz itzo a; let fb := fillTz itzo b
+      let inK := decide (fa.year ≠ fb.year ∧ (fa.year - fb.year).natAbs ≤ 2) && !(tdOk (absV fa).instantC && tdOk (absV fb).instantC)
       let inN := !(decide (ImplicitTzIrrelevant a b itz))
-      out m s inK ++ s!" inN={b01 inN}"
+      out m s inK ++ s!" inN={b01 inN} model0={m0}"
     | _, _, _ => "bad-args"
+  | "tmk" =>
+    match int? (f "H"), int? (f "MI"), int? (f "S"), int? (f "US"), parseTz (f "TZ") with
+    | some h, some mi, some s, some us, some tz =>
+      let ok := (decide (0 ≤ h ∧ h ≤ 23 ∧ 0 ≤ mi ∧ mi ≤ 59 ∧ 0 ≤ s ∧ s ≤ 59 ∧ 0 ≤ us ∧ us ≤ 999999)) ||
+                (h == 24 && mi == 0 && s == 0 && us == 0)
+      let spec := if ok then s!"2000:1:1:{if h == 24 then 0 else ((h * 60 + mi) * 60 + s) * 1000000 + us}:{showTz tz}" else "ERR:ValueError"
+      out (showR showDT (timeMk h mi s us tz)) spec false
+    | _, _, _, _, _ => "bad-args"
+  | "tadd" | "tsub" =>
+    match getA, int? (f "DUR") with
+    | some a, some dur =>
+      let neg := f "op" == "tsub"
+      let sd := if neg then -dur else dur
+      let r := (absT a).add sd
+      let inO := !(decide (TimeDomain a sd))
+      out (showR showDT (timeAddDur a dur neg)) s!"2000:1:1:{r.us}:{showTz r.tz}" (!tdOk dur) ++ s!" inO={b01 inO}"
+    | _, _ => "bad-args"
+  | "tdiff" =>
+    match getA, getB with
+    | some a, some b => out (toString (timeDiff a b)) (toString (EPV.Timeline.TVal.diff 0 (absT a) (absT b))) false
+    | _, _ => "bad-args"
+  | "tadjust" =>
+    match getA, parseTz (f "TZ") with
+    | some a, some tz =>
+      let r := (absT a).adjust tz
+      out (showR showDT (timeAdjust a tz)) s!"2000:1:1:{r.us}:{showTz r.tz}" false
+    | _, _ => "bad-args"
+  | "gmk" =>
+    match int? (f "Y"), int? (f "MO"), int? (f "D"), parseTz (f "TZ") with
+    | some y, some mo, some d, some tz =>
+      let v11 := f "V" == "11"
+      let k? : Option GKind := match f "K" with
+        | "gYear" => some .gYear | "gYearMonth" => some .gYearMonth | "gMonth" => some .gMonth
+        | "gMonthDay" => some .gMonthDay | "gDay" => some .gDay | _ => none
+      match k? with
+      | none => "bad-kind"
+      | some k =>
+        let hasYear := k == .gYear || k == .gYearMonth
+        let model := if hasYear then (lexYear v11 y) >>= fun yy => gMk k yy mo d tz else gMk k 0 mo d tz
+        let astro? : Option Int := if hasYear then (if v11 then EPV.Timeline.astroOfLex11 y else EPV.Timeline.astroOfLex10 y) else some 2000
+        let m' : Int := if k == .gYear || k == .gDay then 1 else mo
+        let d' : Int := if k == .gMonthDay || k == .gDay then d else 1
+        let spec := match astro? with
+          | none => "ERR:ValueError"
+          | some a =>
+            if decide (1 ≤ m' ∧ m' ≤ 12 ∧ 1 ≤ d' ∧ d' ≤ EPV.Timeline.monthLen a m') then showVal ⟨a, m', d', 0, tz⟩
+            else "ERR:ValueError"
+        out (showR showDT model) spec false
+    | _, _, _, _ => "bad-args"
   | "adjust" =>
     match getA, parseTz (f "TZ") with
     | some a, some tz =>
@@ -172,6 +234,46 @@ def answer (line : String) : String :=
       let sh (l : List Int) (tz : Option Int) : String := ";".intercalate (l.map toString) ++ ";" ++ showTz tz
       out (sh (components v11 a) a.tz) (sh (EPV.Timeline.components v11 (absV a)) (absV a).tz) false
     | none => "bad-val"
+  | "durop" =>
+    match int? (f "X"), int? (f "Y"), int? (f "N"), int? (f "D") with
+    | some x, some y, some n, some d =>
+      let showDur (r : Except Err Dur) : String := match r with
+        | .ok v => s!"{v.months};{v.us}"
+        | .error e => showErr e
+      let lim (months us : Int) : String :=
+        if months.natAbs > 2 ^ 31 || us.natAbs > 2 ^ 63 * 1000000 then "ERR:OverflowError" else s!"{months};{us}"
+      if d ≤ 0 then "bad-den" else
+      match f "K" with
+      | "ymadd" => out (showDur (ymAdd x y false)) (lim (x + y) 0) false
+      | "ymsub" => out (showDur (ymAdd x y true)) (lim (x - y) 0) false
+      | "dtadd" => out (showDur (dtAdd x y false)) (lim 0 (x + y)) false
+      | "dtsub" => out (showDur (dtAdd x y true)) (lim 0 (x - y)) false
+      | "ymmul" => out (showDur (ymMul x n d)) (lim (EPV.Timeline.roundHalfUp (x * n) d) 0) false
+      | "dtmul" => out (showDur (dtMul x n d)) (lim 0 (EPV.Timeline.roundNearestEven (x * n) d)) false
+      | "ymdiv" =>
+        let spec := if n = 0 then "ERR:ZeroDivisionError" else
+          lim (if n > 0 then EPV.Timeline.roundHalfUp (x * d) n else EPV.Timeline.roundHalfUp (-(x * d)) (-n)) 0
+        out (showDur (ymDiv x n d)) spec false
+      | "dtdiv" =>
+        let spec := if n = 0 then "ERR:ZeroDivisionError" else
+          lim 0 (if n > 0 then EPV.Timeline.roundNearestEven (x * d) n else EPV.Timeline.roundNearestEven (-(x * d)) (-n))
+        out (showDur (dtDiv x n d)) spec false
+      | _ => "bad-kind"
+    | _, _, _, _ => "bad-args"
+  | "lexdt" =>
+    -- S = code points of the string, comma separated; answer: parsed value and its string form (code points)
+    let cps := (f "S").splitOn "," |>.filterMap (fun x => nat? x)
+    let str : List Char := cps.map Char.ofNat
+    let v11 := f "V" == "11"
+    let showS (l : List Char) : String := ",".intercalate (l.map fun c => toString c.toNat)
+    let r := match f "K" with
+      | "dateTime" => (dateTimeOfLex v11 str).map fun v => (v, fmtDateTime v11 v)
+      | "date" => (dateOfLex v11 str).map fun v => (v, fmtDate v11 v)
+      | _ => (timeOfLex str).map fun v => (v, fmtTime v)
+    let inR := b01 (endOfDaySubMicro str)
+    match r with
+    | .ok (v, t) => s!"model={showDT v}|{showS t} spec=- inK=0 inR={inR}"
+    | .error e => s!"model={showErr e} spec=- inK=0 inR={inR}"
   | "lex" =>
     match int? (f "Y") with
     | some y =>
